@@ -145,6 +145,7 @@ def main(argv: list[str]) -> int:
     def unhex(x: str | None) -> bytes | None:
         return None if x is None else bytes.fromhex(x)
 
+    managers: dict = {}
     batch: list[int] | None = None      # op indices whose insert call returned inside an open "with database:" block
 
     for i, op in enumerate(wl["ops"]):
@@ -170,6 +171,23 @@ def main(argv: list[str]) -> int:
                     exc2 = TypeError("batch body failed")
                     db.__exit__(TypeError, exc2, None)
                 batch = None
+            elif kind == "nop":
+                continue          # placeholder that keeps the indices of a compound call's records aligned
+            elif kind == "cred":
+                from ipv8.attestation.identity.manager import PseudonymManager
+                if op["content"] is None:
+                    token = Token(unhex(op["prev"]), content_hash=unhex(op["chash"]), signature=unhex(op["sig"]))
+                else:
+                    token = Token(unhex(op["prev"]), content=unhex(op["content"]), signature=unhex(op["sig"]))
+                md = Metadata(unhex(op["tp"]), unhex(op["json"]), signature=unhex(op["msig"]))
+                atts = {(pub(a["auth"]), Attestation(unhex(a["mp"]), signature=unhex(a["sig"]))) for a in op["atts"]}
+                mgr = managers.get(op["pk"])
+                if mgr is None or mgr.database is not identity():
+                    mgr = managers[op["pk"]] = PseudonymManager(identity(), public_key=pub(op["pk"]))
+                mgr.add_credential(token, md, atts)
+                for j in range(i, i + op["span"]):
+                    say({"t": "ack", "i": j})
+                continue
             elif kind == "token":
                 if op["content"] is None:
                     token = Token(unhex(op["prev"]), content_hash=unhex(op["chash"]), signature=unhex(op["sig"]))
